@@ -496,7 +496,9 @@ impl Check for Dft {
         for &deg in &degs {
             let len = deg + 1;
             let np = len.next_power_of_two();
-            let mut sizes = vec![len, len + 3, np, 2 * np, 1024];
+            // (sizes that are and are not powers of two, also for the one-coefficient polynomial: 1 -> 1, 2, 3, 4, 5, ...)
+            let mut sizes = vec![len, len + 1, len + 2, len + 3, len + 4, np, np + 1, 3 * np / 2 + 1, 2 * np, 1000, 1024];
+            sizes.retain(|s| *s <= 1024);
             sizes.sort();
             sizes.dedup();
             for size in sizes {
